@@ -194,6 +194,55 @@ let run_mux fields = match fields with
     String.concat ";" (go { bbuf = []; bsrc = bytes_of_hex stream } sizes [])
   | _ -> failwith "mux: want 3 fields"
 
+(* ---- file list ---- *)
+let parse_fopts (s : string) : fopts =
+  let b i = s.[i] = '1' in
+  { o_uid = b 0; o_gid = b 1; o_links = b 2; o_devices = b 3; o_specials = b 4; o_checksum = b 5 }
+
+let dump_entry (o : fopts) (e : fentry) : string =
+  Printf.sprintf "%s/%s/%s/%s/%s/%s/%s/%s/%s" (hex_of_bytes e.e_name) (string_of_z e.e_len)
+    (string_of_z e.e_mtime) (string_of_z e.e_mode) (string_of_z e.e_uid) (string_of_z e.e_gid)
+    (string_of_z e.e_rdev) (hex_of_bytes e.e_link) (if o.o_checksum then hex_of_bytes e.e_csum else "-")
+
+let parse_entry (s : string) : fentry =
+  match split '/' s with
+  | [n; l; mt; md; u; g; rd; lk; cs] ->
+    { e_name = bytes_of_hex n; e_len = z_of_string l; e_mtime = z_of_string mt; e_mode = z_of_string md;
+      e_uid = z_of_string u; e_gid = z_of_string g; e_rdev = z_of_string rd; e_link = bytes_of_hex lk;
+      e_csum = bytes_of_hex cs }
+  | _ -> failwith ("bad entry " ^ s)
+
+let dump_ids (l : (z * z list) list) : string =
+  let l = List.sort (fun (a, _) (b, _) -> compare (int_of_z a) (int_of_z b)) l in
+  String.concat "," (List.map (fun (i, n) -> string_of_z i ^ ":" ^ hex_of_bytes n) l)
+
+let parse_ids (s : string) : (z * z list) list =
+  List.map (fun x -> match split ':' x with
+    | [i; n] -> (z_of_string i, bytes_of_hex n) | _ -> failwith "bad id") (split ',' s)
+
+let run_flist_dec fields = match fields with
+  | [opts; wire] ->
+    let o = parse_fopts opts in
+    let w = bytes_of_hex wire in
+    (match recv_file_list o w with
+     | Inr FShort -> "ERR:short"
+     | Inr FOverflow -> "ERR:overflow"
+     | Inr FBadLink -> "ERR:overflow"
+     | Inl r ->
+       Printf.sprintf "OK|%s|U:%s|G:%s|IO:%s|C:%d"
+         (String.concat ";" (List.map (dump_entry o) r.fr_entries))
+         (dump_ids r.fr_uids) (dump_ids r.fr_gids) (string_of_z r.fr_ioerr)
+         (List.length w - List.length r.fr_rest))
+  | _ -> failwith "flist_dec: want 2 fields"
+
+let run_flist_enc fields = match fields with
+  | [opts; entries; uids; gids; ioerr] ->
+    let o = parse_fopts opts in
+    let es = List.map parse_entry (split ';' entries) in
+    let w = send_file_list o es (parse_ids uids) (parse_ids gids) (z_of_string ioerr) in
+    String.concat "" (List.map (fun b -> Printf.sprintf "%02x" (int_of_z b)) w)
+  | _ -> failwith "flist_enc: want 5 fields"
+
 (* ---- acl ---- *)
 let acl_rule (t : string) : rule =
   match split ':' t with
@@ -225,6 +274,8 @@ let dispatch comp fields =
   | "sender" -> run_sender fields
   | "recv" -> run_recv fields
   | "mux" -> run_mux fields
+  | "flist_dec" -> run_flist_dec fields
+  | "flist_enc" -> run_flist_enc fields
   | _ -> failwith ("unknown component " ^ comp)
 
 let () =
